@@ -1067,7 +1067,13 @@ class Exec:
             return
         if list(st.subjectnames) != file_names:
             self.v("names", f"loader subjects {list(st.subjectnames)!r} != rows in the file {file_names!r}")
-            return
+            # (no return: the queries below then show what this does to lookups and summaries)
+        if all(sess.get("end", "graceful") == "graceful" for ph in plan["phases"] for sess in ph["sessions"]):
+            # every value a result reported must be recoverable under the subject name it was
+            # submitted with
+            for (f2, sn2) in sorted(self.reported, key=repr):
+                if f2 == fname and sn2 is not None and sn2 not in file_names:
+                    self.v("names", f"a result was reported for subject {sn2!r} but the table has no row of that name")
         if sorted(st.groupnames) != sorted(ref["groups"]) or len(st.groupnames) != len(ref["groups"]):
             self.v("names", f"loader groups {sorted(st.groupnames)!r} != evaluator groups {sorted(ref['groups'])!r}")
             return
